@@ -117,7 +117,41 @@ def check_helper(run, f, rule='R7'):
                     run.violation(rule, subj, 'return ' + txt, 'binary helper: %s' % what, f=f, node=r)
                     break
             else:
-                run.error('R7: unrecognised return form in %s: %s' % (f.key, txt))
+                # operand roles of every op(a, b) in the returned expression: a derives from the left operand, b from the right one
+                # (comprehension variables take the role of what they range over)
+                roles = {}
+                for g in [g for x in ast.walk(e) if isinstance(x, (ast.ListComp, ast.GeneratorExp)) for g in x.generators]:
+                    its = g.iter.args if (isinstance(g.iter, ast.Call) and isinstance(g.iter.func, ast.Name) and g.iter.func.id == 'zip') else [g.iter]
+                    tgs = g.target.elts if isinstance(g.target, (ast.Tuple, ast.List)) else [g.target]
+                    if len(its) == len(tgs):
+                        for t_, it_ in zip(tgs, its):
+                            nms = {y.id for y in ast.walk(it_) if isinstance(y, ast.Name)}
+                            if isinstance(t_, ast.Name):
+                                roles[t_.id] = 'L' if nms & aliases and R not in nms else ('R' if R in nms and not (nms & aliases) else None)
+
+                def role(x):
+                    rs = set()
+                    for y in ast.walk(x):
+                        if isinstance(y, ast.Name):
+                            if y.id in aliases:
+                                rs.add('L')
+                            elif y.id == R:
+                                rs.add('R')
+                            elif roles.get(y.id):
+                                rs.add(roles[y.id])
+                    return rs
+                verdicts = []
+                for c_ in ast.walk(e):
+                    if isinstance(c_, ast.Call) and isinstance(c_.func, ast.Name) and c_.func.id == 'op' and len(c_.args) == 2:
+                        ra, rb = role(c_.args[0]), role(c_.args[1])
+                        if ra == {'R'} and rb == {'L'}:
+                            verdicts.append('operands swapped: op(%s) takes the right operand first' % src(c_, 40))
+                        elif ra == rb and ra in ({'L'}, {'R'}):
+                            verdicts.append('both arguments of %s derive from the %s operand: the other operand is not used' % (src(c_, 40), 'left' if ra == {'L'} else 'right'))
+                if verdicts:
+                    run.violation(rule, subj, 'return ' + txt, 'binary helper: %s' % verdicts[0], f=f, node=r)
+                else:
+                    run.error('R7: unrecognised return form in %s: %s' % (f.key, txt))
             continue
         seen[case] += 1
         if case == '11':
@@ -277,8 +311,41 @@ def check_duplicates(run, f, rule='R7'):
             if ast.unparse(x.left) == ast.unparse(x.comparators[0]) and not isinstance(x.left, ast.Constant):
                 found = True
                 run.violation(rule, f.key, 'self comparison ' + src(x, 80), 'comparison of an expression with itself', f=f, node=x)
+        elif isinstance(x, ast.BinOp) and isinstance(x.op, (ast.Sub, ast.Div, ast.FloorDiv, ast.Mod, ast.BitXor)) and not isinstance(x.left, ast.Constant):
+            n += 1
+            if ast.dump(x.left) == ast.dump(x.right):
+                found = True
+                run.violation(rule, f.key, 'constant expression ' + src(x, 60), 'both operands of %s are the same expression: the value is 0 / 1 whatever the '
+                              'input (one of them was meant to be the other operand)' % {'Sub': '-', 'Div': '/', 'FloorDiv': '//', 'Mod': '%', 'BitXor': '^'}[type(x.op).__name__],
+                              f=f, node=x)
+        elif isinstance(x, ast.Compare) and len(x.ops) == 1 and isinstance(x.ops[0], (ast.Lt, ast.LtE, ast.Gt, ast.GtE)) and not isinstance(x.left, ast.Constant):
+            n += 1
+            if ast.dump(x.left) == ast.dump(x.comparators[0]):
+                found = True
+                run.violation(rule, f.key, 'self comparison ' + src(x, 80), 'comparison of an expression with itself', f=f, node=x)
+        elif isinstance(x, ast.Call) and len(x.args) == 2 and not x.keywords and not isinstance(x.args[0], ast.Constant):
+            nm = x.func.attr if isinstance(x.func, ast.Attribute) else (x.func.id if isinstance(x.func, ast.Name) else '')
+            if nm in ('atan2', 'arctan2', 'cross', 'subtract', 'isclose', 'allclose', 'array_equal'):
+                n += 1
+                if ast.dump(x.args[0]) == ast.dump(x.args[1]):
+                    found = True
+                    run.violation(rule, f.key, 'constant expression ' + src(x, 60), 'both arguments of %s are the same expression: the result does not depend on '
+                                  'the input as intended' % nm, f=f, node=x)
+        elif isinstance(x, (ast.ListComp, ast.GeneratorExp, ast.SetComp)):
+            # every variable unpacked from a zip / tuple target of the comprehension is used by the element expression
+            for g in x.generators:
+                if isinstance(g.target, (ast.Tuple, ast.List)) and len(g.target.elts) >= 2 and all(isinstance(t, ast.Name) for t in g.target.elts):
+                    n += 1
+                    used = {y.id for y in ast.walk(x.elt) if isinstance(y, ast.Name)} | {y.id for c in g.ifs for y in ast.walk(c) if isinstance(y, ast.Name)} | \
+                        {y.id for g2 in x.generators if g2 is not g for y in ast.walk(g2.iter) if isinstance(y, ast.Name)}
+                    unused = [t.id for t in g.target.elts if t.id not in used and not t.id.startswith('_')]
+                    if unused:
+                        found = True
+                        run.violation(rule, f.key, 'unused element ' + src(x, 60), 'the comprehension unpacks %s from its iterable but the element expression does '
+                                      'not use %s: one of the paired sequences has no influence on the result' % (', '.join(t.id for t in g.target.elts),
+                                                                                                              '/'.join(unused)), f=f, node=x)
     if n and not found:
-        run.holds(rule, f.key, 'duplicate-operand lint', '%d boolean/comparison expressions, none with identical operands' % n, f=f)
+        run.holds(rule, f.key, 'duplicate-operand lint', '%d boolean / comparison / difference / paired expressions, none with identical or unused operands' % n, f=f)
 
 
 def run_r7(run, helpers=True, dunders=True, rule='R7'):
@@ -332,15 +399,35 @@ def check_helper_operand_order(run, rule='R7o'):
     for f in prog.analysed_functions():
         if f.cls is None or f.parent is not None or f.name not in BIN_DUNDERS or len(f.params) < 2:
             continue
-        if f.name.startswith('__r') and f.name not in ('__repr__',) and '__' + f.name[3:] in BIN_DUNDERS:
-            continue          # reflected methods: self is the right operand and the helper call is on self by construction
+        # reflected methods: self is the right operand and the helper call is on self by construction -- only the element operation
+        # is looked at there
+        reflected = f.name.startswith('__r') and f.name not in ('__repr__',) and '__' + f.name[3:] in BIN_DUNDERS
         p0, p1 = f.params[0], f.params[1]
         for c in own_walk(f.node):
             if not (isinstance(c, ast.Call) and isinstance(c.func, ast.Attribute) and c.func.attr in ('binop', '_op2') and c.args):
                 continue
+            if reflected:
+                op_ = c.args[1] if len(c.args) > 1 else None
+                if isinstance(op_, ast.Lambda) and len(op_.args.args) == 2:
+                    used_ = {x.id for x in ast.walk(op_.body) if isinstance(x, ast.Name)}
+                    miss_ = [a.arg for a in op_.args.args if a.arg not in used_]
+                    if miss_:
+                        run.violation(rule, f.key, 'element operation ' + src(op_, 50), 'the element operation ignores its argument %s: the result does not '
+                                      'depend on one of the operands' % miss_[0], f=f, node=c)
+                    else:
+                        run.holds(rule, f.key, 'element operation ' + src(op_, 50), 'uses both of its arguments', f=f, node=c)
+                continue
             n += 1
             recv, arg = c.func.value, c.args[0]
             op = c.args[1] if len(c.args) > 1 else None
+            if isinstance(op, ast.Lambda) and len(op.args.args) == 2:
+                used = {x.id for x in ast.walk(op.body) if isinstance(x, ast.Name)}
+                missing = [a.arg for a in op.args.args if a.arg not in used]
+                if missing:
+                    run.violation(rule, f.key, 'element operation ' + src(op, 50), 'the element operation ignores its %s argument (%s): the result does not '
+                                  'depend on the %s operand' % ('first' if missing[0] == op.args.args[0].arg else 'second', missing[0],
+                                                                'left' if missing[0] == op.args.args[0].arg else 'right'), f=f, node=c)
+                    continue
             names_arg = {x.id for x in ast.walk(arg) if isinstance(x, ast.Name)}
             construct = src(c, 60)
             if isinstance(recv, ast.Name) and recv.id == p0 and p1 in names_arg and p0 not in names_arg:
